@@ -75,12 +75,14 @@ def build_model(name, L, rng):
         return args, lambda: ham.linear_fermionic_mpo(*args)
     if name == 'molecular_hamiltonian_mpo':
         t, v = rng.standard_normal((L, L)), rng.standard_normal((L, L, L, L))
+        flag = (True, 1, np.True_)[int(rng.integers(3))]         # every truthy value of the option selects the optimized construction
         return ('tkin, vint = rng.standard_normal((L,L)), rng.standard_normal((L,L,L,L)) from default_rng(seed) after 0 draws',), \
-            lambda: ham.molecular_hamiltonian_mpo(t, v, optimize=True)
+            lambda: ham.molecular_hamiltonian_mpo(t, v, optimize=flag)
     if name == 'spin_molecular_hamiltonian_mpo':
         t, v = rng.standard_normal((L, L)), rng.standard_normal((L, L, L, L))
+        flag = (True, 1, np.True_)[int(rng.integers(3))]
         return ('tkin, vint = rng.standard_normal((L,L)), rng.standard_normal((L,L,L,L)) from default_rng(seed) after 0 draws',), \
-            lambda: ham.spin_molecular_hamiltonian_mpo(t, v, optimize=True)
+            lambda: ham.spin_molecular_hamiltonian_mpo(t, v, optimize=flag)
     raise ValueError(name)
 
 
